@@ -203,9 +203,11 @@ func Replay(w *vt.W, path string, modelKD int, seed int64) int {
 // Random generates and runs n random histories.
 func Random(w *vt.W, rng *rand.Rand, n int, big, forceConc bool) {
 	for id := 0; id < n; id++ {
-		css := []int{1, 2, 3, 4, 5, 8}
+		// chunk sizes that are not powers of two matter: a buffer grown by append has a larger capacity than
+		// the chunk size, and Finalise decides "all in memory" by capacity
+		css := []int{1, 2, 3, 4, 5, 5, 6, 7, 8}
 		if big {
-			css = append(css, 16, 100)
+			css = append(css, 16, 100, 100)
 		}
 		cs := css[rng.Intn(len(css))]
 		ac := rng.Intn(2) == 0
@@ -213,7 +215,7 @@ func Random(w *vt.W, rng *rand.Rand, n int, big, forceConc bool) {
 		cycles := 1 + rng.Intn(4)
 		var ops []Op
 		for c := 0; c < cycles; c++ {
-			counts := []int{0, 1, cs - 1, cs, cs + 1, 2 * cs, 2*cs + 1, 3*cs + 2}
+			counts := []int{0, 1, cs - 1, cs, cs + 1, cs + 1, cs + 2, 2*cs - 1, 2 * cs, 2*cs + 1, 3*cs + 2}
 			cnt := counts[rng.Intn(len(counts))]
 			if cnt < 0 {
 				cnt = 0
